@@ -379,13 +379,13 @@ func genAggSigCase(r *Rand, idx int, tier string) []string {
 		for i := range big {
 			big[i] = "n"
 		}
-		y := randScalar(r)
+		y, y3 := randScalar(r), randScalar(r)
 		big[65536] = keyTok(y)
-		big[3] = keyTok(privs[0])
+		big[3] = keyTok(y3)
 		emit("pub " + strings.Join(big, " "))
 		msg := Hex(r.Bytes(32))
 		emit("sign 65536 " + y.String() + " " + Hex(r.Bytes(32)) + " " + msg)
-		emit("sign 3 " + privs[0].String() + " " + Hex(r.Bytes(32)) + " " + msg)
+		emit("sign 3 " + y3.String() + " " + Hex(r.Bytes(32)) + " " + msg)
 		emit("transcript 3,65536")
 		return lines
 	}
